@@ -387,7 +387,7 @@ func librarySite(stack string) string {
 				loc = loc[:sp]
 			}
 			loc = filepath.Base(filepath.Dir(loc)) + "/" + filepath.Base(loc)
-			if p := strings.IndexByte(fn, '('); p > 0 {
+			if p := strings.LastIndexByte(fn, '('); p > 0 {
 				fn = fn[:p]
 			}
 			fn = strings.TrimPrefix(fn, "github.com/Tom-Johnston/mamba/")
